@@ -451,7 +451,10 @@ def build(tier, seed):
                 "bind_new_parameters_conditional", "bind_new_parameters_controlled_op2", "bind_new_parameters_copy"]
     wbn = World(BNP, functions=fn_names, stubs={"GenOp": (GEN_SRC, {}), "Operand": OPSTUB}, modular={"bind_new_parameters": mc_bind}, extra_builtins=bnp_lib)
     PARAMS = SeqT(Float, tuple=True)
-    wbn.aseq(Float)          # register the axiomatic sequence theory before the first case is set up
+    # the composite cases use axiomatic sequences; their world is separate so that the quantified axioms do not weaken the
+    # counter-model search of the other cases.  The theory is registered before the first case is set up.
+    wbn_ax = World(BNP, functions=fn_names, stubs={"GenOp": (GEN_SRC, {}), "Operand": OPSTUB}, modular={"bind_new_parameters": mc_bind}, extra_builtins=bnp_lib)
+    wbn_ax.aseq(Float)
 
     def gen_op(fields):
         def c(ctx, name):
@@ -466,6 +469,16 @@ def build(tier, seed):
         """z3 goal: the sequence value x equals `term`"""
         return x.term == term if isinstance(x, SeqV) else False
 
+    def tm(x):
+        return getattr(x, "t", x)
+
+    def eqt(x, y):
+        """z3 equality of two scalar values (False when they are not even of the same kind)"""
+        x, y = tm(x), tm(y)
+        if isinstance(x, z3.ExprRef) and isinstance(y, z3.ExprRef):
+            return x == y if x.sort() == y.sort() else False
+        return False
+
     def built_args(r):
         if isinstance(r, Built):
             return r.cls, r.args, r.kwargs
@@ -473,7 +486,7 @@ def build(tier, seed):
             return "GenOp", list(r.f["ctor_args"]), dict(r.f["ctor_kwargs"])
         return None, None, None
 
-    def bnp_case(fname, label, op_fields, check, size_bounded=False, requires=None, params_t=None):
+    def bnp_case(fname, label, op_fields, check, size_bounded=False, requires=None, params_t=None, world=None):
         def post(o, r, nw):
             if not isinstance(nw.op, Rec):
                 return r.ok if isinstance(r, Verdict) else True
@@ -481,7 +494,7 @@ def build(tier, seed):
             if cls is None:
                 return False
             return And(check(nw.op, nw.params, cls, args, kwargs), untouched(o.op, nw.op))
-        contracts.append(FnContract(wbn, fname, [Case(label, {"op": gen_op(op_fields), "params": params_t or PARAMS}, ghost=ghost, requires=requires, ensures=post,
+        contracts.append(FnContract(world or wbn, fname, [Case(label, {"op": gen_op(op_fields), "params": params_t or PARAMS}, ghost=ghost, requires=requires, ensures=post,
                                                       native_gen=native_skip, native_call=scenario("bind:" + fname.replace("bind_new_parameters_", "")), native_raw=True, size_bounded=size_bounded)]))
     L = z3.Length
     need1 = lambda a: L(a.params.term) >= 1 if isinstance(a.params, SeqV) else True
@@ -504,7 +517,7 @@ def build(tier, seed):
         return isinstance(x, Bound) and x.op is op_base and x.params is params
     bnp_case("bind_new_parameters_sprod", "SProd(params[0], bind(base, params[1:]))", with_base,
              lambda op, p, cls, a, k: cls == "SProd" and len(a) == 2 and not k and isinstance(a[1], Bound) and a[1].op is op.f["base"] and
-             And(L(p.term) > 0, a[0].t == p.term[0], seq_goal(a[1].params, z3.Extract(p.term, 1, L(p.term) - 1))),
+             And(L(p.term) > 0, eqt(a[0], p.term[0]), seq_goal(a[1].params, z3.Extract(p.term, 1, L(p.term) - 1))),
              requires=need1)
     bnp_case("bind_new_parameters_pow", "Pow(bind(base, params), scalar)", with_base,
              lambda op, p, cls, a, k: cls == "Pow" and len(a) == 2 and not k and whole(a[0], op.f["base"], p) and same(a[1], op.f["scalar"]))
@@ -537,7 +550,7 @@ def build(tier, seed):
                 return False
             extra_pos = a[2:]
             kws_ok = sorted(k) == sorted(kw_keys) and all(same(k[j], hp[j]) for j in k) and all(same(x, hp["n"]) for x in extra_pos) and len(extra_pos) <= 1
-            return And(kws_ok, seq_goal(a[0].params, z3.Extract(p.term, 0, n_ - 1)), a[1].t == p.term[n_ - 1])
+            return And(kws_ok, seq_goal(a[0].params, z3.Extract(p.term, 0, n_ - 1)), eqt(a[1], p.term[n_ - 1]))
         return chk
     bnp_case("bind_new_parameters_approx_time_evolution", "ApproxTimeEvolution(bind(hamiltonian, params[:-1]), params[-1], n)", hp_fields,
              last_time("ApproxTimeEvolution", "hamiltonian", []), requires=need1)
@@ -546,10 +559,10 @@ def build(tier, seed):
     bnp_case("bind_new_parameters_commuting_evolution", "CommutingEvolution(bind(hamiltonian, params[1:]), params[0], frequencies=, shifts=)", hp_fields,
              lambda op, p, cls, a, k: cls == "CommutingEvolution" and len(a) == 2 and isinstance(a[0], Bound) and a[0].op is op.f["hyperparameters"]["hamiltonian"] and
              sorted(k) == ["frequencies", "shifts"] and all(same(k[j], op.f["hyperparameters"][j]) for j in k) and
-             And(seq_goal(a[0].params, z3.Extract(p.term, 1, L(p.term) - 1)), a[1].t == p.term[0]), requires=need1)
+             And(seq_goal(a[0].params, z3.Extract(p.term, 1, L(p.term) - 1)), eqt(a[1], p.term[0])), requires=need1)
     bnp_case("bind_new_parameters_fermionic_double_excitation", "FermionicDoubleExcitation(params[0], wires1=, wires2=)", hp_fields,
              lambda op, p, cls, a, k: cls == "FermionicDoubleExcitation" and len(a) == 1 and sorted(k) == ["wires1", "wires2"] and
-             all(same(k[j], op.f["hyperparameters"][j]) for j in k) and a[0].t == p.term[0], requires=need1)
+             all(same(k[j], op.f["hyperparameters"][j]) for j in k) and eqt(a[0], p.term[0]), requires=need1)
 
     # symbolic / scalar-symbolic: the hyperparameters other than `base` are passed on, the original dict keeps its `base`
     def symhp_fields(ctx):
@@ -562,7 +575,7 @@ def build(tier, seed):
     bnp_case("bind_new_parameters_scalar_symbolic_op", "cls(bind(base, params[1:]), params[0], **other hyperparameters)", symhp_fields,
              lambda op, p, cls, a, k: cls == "GenOp" and len(a) == 2 and isinstance(a[0], Bound) and a[0].op is op.f["base"] and list(k) == ["extra"] and
              same(k["extra"], op.f["hyperparameters"]["extra"]) and "base" in op.f["hyperparameters"] and
-             And(a[1].t == p.term[0], seq_goal(a[0].params, z3.Extract(p.term, 1, L(p.term) - 1))), requires=need1)
+             And(eqt(a[1], p.term[0]), seq_goal(a[0].params, z3.Extract(p.term, 1, L(p.term) - 1))), requires=need1)
 
     # composite: every operand gets the next num_params parameters, in order (1..3 operands, symbolic counts, symbolic-length parameters)
     def comp_fields(n):
@@ -594,7 +607,7 @@ def build(tier, seed):
         return req
     for n in (1, 2, 3):
         bnp_case("bind_new_parameters_composite_op", f"{n} operands: operand i gets params[sum(n_j, j<i) : ... + n_i]", comp_fields(n), comp_check,
-                 size_bounded=True, requires=comp_requires(n), params_t=SeqT(Float, tuple=True, ax=True))
+                 size_bounded=True, requires=comp_requires(n), params_t=SeqT(Float, tuple=True, ax=True), world=wbn_ax)
 
     # composite, SYMBOLIC number of operands: loop invariant over the slicing bookkeeping.  POS(i) = sum of num_params of operands[:i]
     # (POS(0) = 0, POS(i+1) = POS(i) + num_params(operands[i])); the invariant says that after i rounds the remaining parameter
@@ -695,6 +708,7 @@ def build(tier, seed):
             plan.add(ob)
     for nm in NATIVE_TABLE:
         plan.add(native_obligation(nm))
+    plan.add(pytree_nesting_obligation())
     # candidate defects found by the stand-in on the UNCHANGED tree (replayed natively, reported).  known_findings.json is read only here:
     # an instance joins the plan, tagged, as soon as a finding of this property naming the keyword is registered; after a repair the
     # name belongs into NATIVE_TABLE.
@@ -839,6 +853,7 @@ def scenario(kind):
                     op = make_native(nm)
                     before = dict(vars(op))
                     old_data = [np.array(d, copy=True) for d in op.data]
+                    hp_keys = list(op.hyperparameters)
                     new = [np.asarray(d) * 0.5 + 0.125 * (i + 1) for i, d in enumerate(op.data)]
                     b = qp.ops.functions.bind_new_parameters(op, new)
                     must(type(b) is type(op) and b is not op, f"{nm}: class changed or the input itself returned")
@@ -850,6 +865,7 @@ def scenario(kind):
                     hp_o = {k: v for k, v in op.hyperparameters.items() if not isinstance(v, (mod_operator(), list, tuple))}
                     must(all(repr(b.hyperparameters.get(k)) == repr(v) for k, v in hp_o.items()), f"{nm}: a hyperparameter changed")
                     must(all(np.array_equal(x, y) for x, y in zip(op.data, old_data)), f"{nm}: the input's parameters changed")
+                    must(list(op.hyperparameters) == hp_keys, f"{nm}: the input's hyperparameters changed")
                     vars_same(op, before, nm)
         except Exception as ex:  # pylint: disable=broad-except
             bad.append(f"raised {type(ex).__name__}: {str(ex)[:120]}")
@@ -862,12 +878,12 @@ def mod_operator():
     return qp.operation.Operator
 
 
-ROUNDTRIP = {"Operator": ["RX", "Rot", "PauliRot", "MultiRZ", "Projector", "MultiControlledX"], "CompositeOp": ["prod(X, RY)", "prod3"], "Sum": ["sum(Z, RX)", "Hamiltonian-sum"],
+ROUNDTRIP = {"Operator": ["AngleEmbedding", "Barrier", "Identity", "RX", "Rot", "Projector", "Snapshot"], "CompositeOp": ["prod(X, RY)", "prod3"], "Sum": ["sum(Z, RX)", "Hamiltonian-sum"],
              "Adjoint": ["Adjoint-class"], "Pow": ["Pow-class"], "SProd": ["s_prod(2.5, X)"], "Exp": ["exp(X, 0.3j)", "evolve(Z, 0.7)"],
-             "Controlled": ["ctrl(RY)", "ctrl(ctrl(S))", "ctrl-work"], "MeasurementProcess": ["expval(Z)", "expval(sum)", "probs(wires)", "var(Hermitian)", "sample(X)", "counts()", "sample(mv)"]}
+             "Controlled": ["Controlled-class", "ctrl(RY)", "ctrl(ctrl(S))", "ctrl-work"], "MeasurementProcess": ["expval(Z)", "expval(sum)", "probs(wires)", "var(Hermitian)", "sample(X)", "counts()", "sample(mv)", "expval(eigvals)"]}
 BIND = {"sprod": ["s_prod(2.5, X)", "s_prod(2.5, RX)"], "pow": ["Pow-class"], "pow2": ["pow(RX, 2.5)"], "controlled_sequence": ["ControlledSequence"], "prep_sel_prep": [],
         "controlled_op2": ["ctrl(RY)", "ctrl-work"], "conditional": ["cond(RX)"], "approx_time_evolution": ["ApproxTimeEvolution"], "qdrift": ["QDrift"],
-        "commuting_evolution": ["CommutingEvolution"], "fermionic_double_excitation": ["FermionicDoubleExcitation"], "symbolic_op": ["Adjoint-class"],
+        "commuting_evolution": ["CommutingEvolution"], "fermionic_double_excitation": ["FermionicDoubleExcitation"], "symbolic_op": ["Controlled-class"], "adjoint": ["Adjoint-class", "adjoint(RX)"],
         "scalar_symbolic_op": ["exp(RX-sum)"], "composite_op": ["prod3", "sum(Z, RX)", "prod(X, RY)"]}
 
 NATIVE_TABLE = ["RX", "Rot", "CNOT", "CRX", "Toffoli", "MultiControlledX", "QubitUnitary", "PauliRot", "MultiRZ", "IsingXX", "PhaseShift", "U3",
@@ -876,7 +892,7 @@ NATIVE_TABLE = ["RX", "Rot", "CNOT", "CRX", "Toffoli", "MultiControlledX", "Qubi
                 "DoubleExcitation", "Barrier", "Snapshot", "AmplitudeDamping", "DepolarizingChannel", "BitFlip",
                 "QubitChannel", "TrotterProduct", "ApproxTimeEvolution", "AngleEmbedding", "expval(Z)", "expval(sum)", "probs(wires)", "var(Hermitian)",
                 "sample(X)", "counts()", "prod3", "ctrl-work", "sample(mv)", "ControlledSequence", "QDrift", "CommutingEvolution",
-                "FermionicDoubleExcitation", "s_prod(2.5, RX)", "exp(RX-sum)", "Adjoint-class"]
+                "FermionicDoubleExcitation", "s_prod(2.5, RX)", "exp(RX-sum)", "Adjoint-class", "Controlled-class", "expval(eigvals)"]
 
 
 CANDIDATE_DEFECTS = [
@@ -921,6 +937,8 @@ def make_native(name):
         "CommutingEvolution": lambda: qp.CommutingEvolution(0.5 * qp.X(0) @ qp.Y(1) + 0.3 * qp.Y(0) @ qp.X(1), 0.7, frequencies=(2,)),
         "FermionicDoubleExcitation": lambda: qp.FermionicDoubleExcitation(0.3, wires1=[0, 1], wires2=[2, 3]),
         "s_prod(2.5, RX)": lambda: qp.s_prod(2.5, qp.RX(0.3, 0)), "exp(RX-sum)": lambda: qp.ops.op_math.Exp(qp.sum(qp.RX(0.1, 0), qp.Z(1)), 0.5j),
+        "Controlled-class": lambda: qp.ops.op_math.Controlled(qp.RY(0.2, 2), [0, 1], control_values=[1, 0], work_wires=[5], work_wire_type="zeroed"),
+        "expval(eigvals)": lambda: qp.measurements.ExpectationMP(eigvals=np.array([1.0, -1.0]), wires=[0]),
         "Adjoint-class": lambda: qp.ops.op_math.Adjoint(qp.RX(0.3, 0)), "Pow-class": lambda: qp.ops.op_math.Pow(qp.RX(0.3, 0), 2.5),
     }
     return t[name]()
@@ -991,3 +1009,76 @@ def native_obligation(name):
         return Outcome(DISCHARGED, "native-standin", "copy / deepcopy / pickle / pytree / _flatten / bind_new_parameters reproduce the operator",
                        extra=dict(bounded=True))
     return Obligation(f"{PID}/native:round trips/{name}", "bounded", fn, bounded=True, timeout=240, sample="real round trips compared with qp.equal and hash")
+
+
+def pytree_nesting_obligation():
+    """bounded: pytrees.flatten / unflatten on every nesting (depth <= 3) of lists / tuples / dicts / None / one operator with numbered leaves"""
+    def fn():
+        import itertools as itx
+        import pennylane as qp
+        from pennylane.pytrees import flatten, unflatten
+        problems, count = [], [0]
+
+        def shapes(depth):
+            yield "leaf"
+            yield "none"
+            if depth == 0:
+                return
+            subs = list(shapes(depth - 1)) if depth > 1 else ["leaf", "none"]
+            for k in (0, 1, 2):
+                for combo in itx.product(subs, repeat=k):
+                    for kind in ("list", "tuple", "dict"):
+                        yield (kind, combo)
+            yield ("op", ())
+
+        def build(shape, ctr, expected):
+            if shape == "leaf":
+                ctr[0] += 1
+                expected.append(float(ctr[0]))
+                return float(ctr[0])
+            if shape == "none":
+                return None
+            kind, combo = shape
+            if kind == "op":
+                a, b, c = (build("leaf", ctr, expected) for _ in range(3))
+                return qp.Rot(a, b, c, wires=ctr[0])
+            items = [build(x, ctr, expected) for x in combo]
+            return items if kind == "list" else tuple(items) if kind == "tuple" else {f"k{i}": v for i, v in enumerate(items)}
+
+        def same_tree(a, b):
+            if type(a) is not type(b):
+                return False
+            if isinstance(a, (list, tuple)):
+                return len(a) == len(b) and all(same_tree(x, y) for x, y in zip(a, b))
+            if isinstance(a, dict):
+                return list(a) == list(b) and all(same_tree(a[k], b[k]) for k in a)
+            if isinstance(a, qp.operation.Operator):
+                return qp.equal(a, b)
+            return a == b
+        for shape in shapes(3):
+            count[0] += 1
+            if count[0] > 1500:
+                break
+            expected = []
+            x = build(shape, [0], expected)
+            try:
+                leaves, struct = flatten(x)
+                if [l for l in leaves if isinstance(l, float)] != expected:          # the other leaves are the integer wire labels of the operator
+                    problems.append(f"leaf order of {x!r}: {leaves} != left-to-right {expected}")
+                y = unflatten(leaves, struct)
+                if not same_tree(x, y):
+                    problems.append(f"unflatten(*flatten(x)) != x for {x!r}: {y!r}")
+                new = [(-l if isinstance(l, float) else l) for l in leaves]
+                z = unflatten(new, struct)
+                l2, s2 = flatten(z)
+                if [(-l if isinstance(l, float) else l) for l in l2] != list(leaves) or repr(s2) != repr(struct):
+                    problems.append(f"rebinding leaves of {x!r} moved a leaf or changed the structure")
+            except Exception as ex:  # pylint: disable=broad-except
+                problems.append(f"{x!r}: raised {type(ex).__name__}: {str(ex)[:80]}")
+            if len(problems) > 3:
+                break
+        if problems:
+            return Outcome(REFUTED, "native-standin", "; ".join(problems[:3]), witness=dict(example=problems[0]), replay=dict(confirmed=True, observed=problems[:3]))
+        return Outcome(DISCHARGED, "native-standin", f"{count[0]} nestings round-trip, leaves left to right", extra=dict(bounded=True))
+    return Obligation(f"{PID}/pytrees:flatten+unflatten/nestings of depth <= 3", "bounded", fn, bounded=True, timeout=240,
+                      func=("pennylane/pytrees/pytrees.py", "flatten"), sample="lists / tuples / dicts / None / Rot with numbered leaves")
